@@ -40,7 +40,7 @@ def plan(tier, seed):
 
 def floors(tier):
     strata = ["single-datum", "same-time", "options-omitted", "options-empty", "options-partial", "span:1ms", "span:8ms", "span:50ms", "span:second", "span:minute",
-              "span:hour", "span:day", "span:week", "span:month", "span:year", "span:300y", "month-end-window", "leap-day-window", "year-end-window", "linear-single",
+              "span:hour", "span:day", "span:week", "span:month", "span:year", "span:300y", "month-end-window", "leap-day-window", "year-end-window", "linear-single", "explicit-width-forms",
               "big", "general"]
     return {"evaluations": 500, "strata": strata, "events": {"Timeline.__init__": 500, "TimelineSVG.export": 200, "TimelineTex.export": 200},
             "distinct_nontrivial": 100, "max_inconclusive_frac": 0.02}
@@ -99,6 +99,21 @@ def strata_specs(rng):
         out.append(("linear-single", {"data": [{"time": 5.0, "width": 40, "uid": 0}], "options": dict(base_opts(d), scale="linear")}))
         out.append(("same-time", {"data": [{"time": t0, "width": 30 + i, "uid": i, "text": "L%d" % i} for i in range(4)], "options": base_opts(d)}))
         out.append(("same-time", {"data": [{"time": 7.0, "width": 30 + i, "uid": i} for i in range(3)], "options": dict(base_opts(d), scale="linear")}))
+    # forms of the explicit width and of the text next to it (0 is an explicit width; "" and "0" are texts)
+    for wform in ([0, 0.0, 1, 0.5], [0, 40, 5000], [0.0, 0.0, 0.0], [7, 7, 7]):
+        for tform in (lambda i: "L%d" % i, lambda i: None, lambda i: ["", "0", " "][i % 3], lambda i: "same"):
+            data = []
+            for i, w in enumerate(wform):
+                d = {"time": t0 + dt.timedelta(hours=5 * i), "width": w, "uid": i}
+                if tform(i) is not None:
+                    d["text"] = tform(i)
+                data.append(d)
+            out.append(("explicit-width-forms", {"data": data, "options": base_opts(rng.choice(TL.DIRECTIONS))}))
+            out.append(("explicit-width-forms", {"data": [dict(d, time=float(i)) for i, d in enumerate(data)], "options": dict(base_opts(rng.choice(TL.DIRECTIONS)), scale="linear")}))
+    # a label of width 0 (no padding along the axis) in a cluster that the default layering has to split (D13)
+    for d in TL.DIRECTIONS:
+        data = [{"time": t0 + dt.timedelta(minutes=i), "width": [60, 0, 55, 0.0, 70, 65][i], "uid": i} for i in range(6)]
+        out.append(("explicit-width-forms", {"data": data, "options": dict(base_opts(d), labella={"maxPos": 200, "density": 0.5}, labelPadding={"left": 0, "right": 0, "top": 1, "bottom": 1})}))
     data3 = [{"time": dt.date(2020, 1, 1 + 9 * i), "width": 30 + i, "uid": i, "text": "L%d" % i} for i in range(3)]
     out.append(("options-omitted", {"data": data3, "options": None}))
     out.append(("options-omitted", {"data": [{"time": dt.datetime(2020, 5, 1 + i, 12), "width": 50, "uid": i} for i in range(5)], "options": None}))
